@@ -18,7 +18,11 @@ MANIFEST = dict(
          "declared set, the tables are ascending and index-aligned, the two maps are inverse, IsValid holds exactly on declared values and "
          "String is the trimmed name / the decimal form for EVERY integer, and the guard compiles iff no constant changed. The model is tied "
          "to the code by generating enums from the grammar, running the rebuilt `shoot enum`, compiling the output and executing all six "
-         "methods over a window of values, plus edited-constant legs that must stop compiling.",
+         "methods over a window of values, plus edited-constant legs that must stop compiling. The emitted tables are package-level variables: "
+         "the theorems are also stated over the running program (Tables/step/run) - by induction over the call list no call of the emitted methods or of "
+         "the runtime helpers writes a table, and after EVERY history every call returns the property's answer (C04_tables_invariant, C04_history); the "
+         "correspondence executes a generated history of calls (declared and undeclared arguments, IsEnum over all integer types) and then every method again. "
+         "TrimPrefix corner cases (removed once, case-sensitive, when two names collide) and the guard line at the boundary of the kind are theorems.",
     note="Lean kernel + standard axioms; go/types constant values and fmt %d are inputs/symbolic; int/uint are 64 bit.",
     technique="Lean 4 proof (induction over the const specs / insertion sort / association lists) + differential correspondence on generated enums",
     design="5/C04")
@@ -234,7 +238,8 @@ def run_cases(ctx, cases, name="mod"):
                 for lbl, _, _ in c["variants"]:
                     st = out["%sx%s" % (c["id"], lbl)]["compile"]
                     im["stale:" + lbl] = "accepted" if st == "ok" else "rejected"
-                    im["staleErr:" + lbl] = enumgen.guard_class(st)
+                    # the class of the compiler's first message: an aux line (advisory), compared with the model's guardFirst in run()
+                    c.setdefault("staleErr", {})[lbl] = enumgen.guard_class(st)
                     c["detail"]["stale:" + lbl] = enumgen.compile_class(st) + " " + st[:160]
         impl[c["id"]] = im
     allc = cases + [c["asub"] for c in cases if c.get("asub") and c["asub"]["id"] in impl]
@@ -270,6 +275,12 @@ def run(ctx, obl):
             res.hist("stale-variants", str(len(c["variants"])))
             for lbl, _, _ in c["variants"]:
                 res.hist("stale-kind", lbl)
+        for c in part:
+            mm = (model.get(c["id"]) or {}).get("model", {})
+            for lbl, cls in c.get("staleErr", {}).items():
+                res.hist("stale-guard-complaint", cls.split(":")[0])
+                if mm.get("staleErr:" + lbl) not in (None, cls):
+                    res.advisory.append({"case": c["sexp"][:400], "keys": ["staleErr:" + lbl], "impl": cls, "model": mm.get("staleErr:" + lbl)})
         core.compare_cases(ctx, res, allc, impl, model, sig=sig,
                            nontrivial=lambda c, m, im: m["region"] != "Out" and len(c["decl"]) >= 2)
         res.extra["caller-write (alias) sub-cases, advisory"] = res.extra.get("caller-write (alias) sub-cases, advisory", 0) + len(allc) - len(part)
@@ -291,8 +302,15 @@ def run(ctx, obl):
                 "output (generated files are never input: same expectation); the output is compiled with the package and all six methods executed for every declared value and every "
                 "value of a window (min-3..max+3, every gap, 0, +-1, the type's min and max); up to four re-declarations of the constants "
                 "(unchanged / one value changed / two values swapped / an edit of the original spec) are compiled against the un-regenerated file. "
-                "after a history of shoot.ParseEnum / TryParseEnum calls with differently-cased, prefixed, listed (\"A, B\") and unknown spellings the "
-                "agreement observations are taken AGAIN (values2, strings2, vmap2, smap2, valid2): the tables are a function of the declaration; "
+                "after a history of shoot.ParseEnum / TryParseEnum calls with differently-cased, prefixed, listed (\"A, B\") and unknown spellings AND a generated "
+                "CALL HISTORY of 18 calls in random order (IsEnum[T, TV] for random integer types TV with declared and undeclared values - at least one undeclared "
+                "positive value -, ParseEnum / TryParseEnum with declared and undeclared names, Values / Strings / ValueMap / StringMap, String, IsValid; every "
+                "result asserted, keys h<j>) EVERY method is observed AGAIN (values2, strings2, vmap2, smap2, str2, valid2): the tables are package-level variables "
+                "and no call may leave them changed (Lean: C04_tables_invariant / C04_history, induction over the call list); "
+                "behaviour-neutral flags are a dimension of every run: -v / -verbose (35%), -ver= / -version= (20%), -sep / -separate (20%), before or after the "
+                "selection flag; as a last step a CALLER writes through the slices / maps the getters returned (they are the tables themselves) and everything is "
+                "observed once more against the model that applies the same writes - outside the property, advisory (sub-case <id>a, region Out); the class of the "
+                "compiler's first complaint about each stale variant (none / overflows / negative / bounds) is compared with the model's guardFirst (advisory); "
                 "non-trivial = distinct declaration with at least two constants outside Out" +
                 ("; thorough adds every sequence of at most four specs over the six spec forms (%d blocks)" % nex if nex else ""))
     res.exhaustive = bool(nex)
